@@ -78,7 +78,7 @@ PROPS = {
         "exhaustive_quick": True,
         "exhaustive_thorough": True,
         "assumptions": [
-            "the matrix (28 schema types x 52 Go types x 6 positions) is enumerated completely in every run; the quick tier uses one canary width per cell (rotating with the seed), the thorough tier all eight",
+            "the matrix (37 schema types x 56 Go types x 6 positions) is enumerated completely in every run; the quick tier uses one canary width per cell (rotating with the seed), the thorough tier all eight",
             "values per cell are a fixed list of 2-10 in-range and out-of-range datums with distinct byte patterns",
             "a store outside the guarded struct that lands in unrelated heap memory is visible only as a crash of the worker or as a wrong neighbouring element",
         ],
